@@ -55,7 +55,7 @@ def gen_case(R, tier):
   c = R("case")
   for _ in range(30):
     prof = designgen.profile(c.choice(["acyclic", "ff_heavy", "shapes"]))
-    prof.update(n_child_classes=(1, 3), p_list=0.4)
+    prof.update(n_child_classes=(1, 3), p_list=0.4, p_sub2d=0.0)
     spec = designgen.DesignGen(c, prof, uid="r%x" % (R.seed & 0xffffff)).gen()
     if len(spec["comps"]) >= 2:
       break
